@@ -251,6 +251,21 @@ def run_shard(ctx):
             time_slice(ctx, region, samples, mb(), mb(), base, "millis", via_temporary=(k_ == 2), dress=rng.choice((0, 0, 1, 2)))
             if k_ == 0:
                 ctx.count("slices_through_a_temporary_region", 2)
+        if i % 60 == 11:
+            # regions of one to three seconds at telephone-to-studio rates: millisecond and second bounds well above 1000 ms,
+            # where t/1000*rate is not an integer in binary floating point although it is one on paper
+            rate2 = rng.choice((8000, 16000, 32000, 48000, 44100, 22050, 1000))
+            n2 = rate2 + rng.randint(0, 2 * rate2)
+            region2, data2 = mk_region(rng, n2, 1, 1, rate2)
+            samples2 = sample_list(data2, 1)
+            base2 = {"n": n2, "width": 1, "channels": 1, "rate": rate2, "data_is": "see replay index"}
+            d_ms = 1000 * n2 // rate2
+            ctx.count("long_regions_sliced")
+            for _ in range(40):
+                a = rng.choice((rng.randint(0, d_ms), rng.randint(1000, max(1000, d_ms)), 1001, 9, 1009, 2001, rng.randint(0, 30)))
+                b = rng.choice((None, rng.randint(a, max(a, d_ms + 5)), a + 1))
+                time_slice(ctx, region2, samples2, a, b, base2, "millis")
+                time_slice(ctx, region2, samples2, a / 1000, (None if b is None else b / 1000), base2, "seconds")
         if (i & 63) == 0 and ctx.out_of_time():
             break
 
